@@ -49,6 +49,12 @@ class GRPCService:
             logging.debug("Connecting with insecure channel to: %s ", self._service_url)
             self.channel = grpc.insecure_channel(self._service_url)
 
+    def shutdown(self):
+        """Close the GRPC channel: an open channel keeps (re)connecting to the service."""
+        channel, self.channel = self.channel, None
+        if channel is not None:
+            channel.close()
+
     def metadata(self):
         """
         Get GRPC metadata.
